@@ -231,21 +231,19 @@ func TestBoundedC13(t *testing.T) {
 		cases++
 		if err != nil {
 			nfail++
-			fmt.Printf("BOUNDED-FAIL: crash before write %d (%s): the node does not come up again: %v\n", k, writes[k-1], err)
+			fmt.Printf("BOUNDED-FAIL: crash before write %d (after %v): the node does not come up again: %v\n", k, done, err)
 			continue
 		}
 		h := n.bs.Height()
 		hasKI := n.us.HaveTxKeyimgAsSpent(&ki)
 		nOut := n.us.GetMaxUtxoOutputSeq(common.EmptyAddress)
-		where := "end of commit"
-		if k <= len(writes) {
-			where = writes[k-1]
-		}
+		// what reached the databases in THIS run (SaveBlock writes from several goroutines: the order varies)
+		where := "after " + strings.Join(done, " ")
 		if h >= 1 && (!hasKI || nOut < 0) {
 			if strings.Contains(known, "utxo-store-behind-block-store") {
 				knownN++
 				if firstKnown == "" {
-					firstKnown = fmt.Sprintf("crash before write %d of %d (%s; done: %v): block store height %d, key image recorded %v, outputs indexed %d", k, len(writes), where, done, h, hasKI, nOut+1)
+					firstKnown = fmt.Sprintf("crash before write %d of %d (%s): block store height %d, key image recorded %v, outputs indexed %d", k, len(writes), where, h, hasKI, nOut+1)
 				}
 			} else {
 				nfail++
@@ -255,6 +253,24 @@ func TestBoundedC13(t *testing.T) {
 		if h == 0 && hasKI {
 			nfail++
 			fmt.Printf("BOUNDED-FAIL: crash before write %d (%s): key image recorded for a block the block store does not have\n", k, where)
+		}
+		if h == 0 {
+			// the block was not acknowledged: the restarted node must be able to commit it now, and end up whole
+			func() {
+				defer func() {
+					if r := recover(); r != nil {
+						nfail++
+						fmt.Printf("BOUNDED-FAIL: crash before write %d (%s): committing the block again after the restart panics: %v\n", k, where, r)
+					}
+				}()
+				commit(d, 0)
+				n2, err := c13Open(d, &c13Ctl{})
+				cases++
+				if err != nil || n2.bs.Height() != 1 || !n2.us.HaveTxKeyimgAsSpent(&ki) || n2.us.GetMaxUtxoOutputSeq(common.EmptyAddress) < 0 {
+					nfail++
+					fmt.Printf("BOUNDED-FAIL: crash before write %d (%s): after restart and a second commit the node is not whole (err %v)\n", k, where, err)
+				}
+			}()
 		}
 	}
 	if knownN > 0 {
